@@ -1,4 +1,4 @@
-(* Model of src/idna.c lines 28-68 and 370-560: uv__wtf8_decode1,
+(* Model of src/idna.c lines 28-68 and 378-569: uv__wtf8_decode1,
    uv_wtf8_length_as_utf16, uv_wtf8_to_utf16, uv__get_surrogate_value,
    uv_utf16_length_as_wtf8, uv_utf16_to_wtf8.
 
@@ -46,7 +46,7 @@ Definition wtf8_decode1 (s : list N) : option N * list N :=
                 if cp <=? 1114111 then (Some cp, s) else (None, s)
               else (None, s).
 
-(* uv_wtf8_length_as_utf16, lines 370-384: do { ... } while ( *source_ptr++).
+(* uv_wtf8_length_as_utf16, lines 378-392: do { ... } while ( *source_ptr++).
    None = -1.  The count includes the terminating NUL. *)
 Fixpoint wtf8_length_loop (fuel : nat) (s : list N) (len : N) : option N :=
   match fuel with
@@ -64,7 +64,7 @@ Fixpoint wtf8_length_loop (fuel : nat) (s : list N) (len : N) : option N :=
 Definition wtf8_length_as_utf16 (s : list N) : option N :=
   wtf8_length_loop (S (length s)) s 0.
 
-(* uv_wtf8_to_utf16, lines 387-409.  Result: the 16-bit units stored, in
+(* uv_wtf8_to_utf16, lines 395-417.  Result: the 16-bit units stored, in
    order (the terminating 0 included), and whether every assert of the
    function holds (with NDEBUG the asserts are not compiled; when the first
    one fails the model stops, the C code would go on with garbage). *)
@@ -76,7 +76,7 @@ Fixpoint wtf8_to_utf16_loop (fuel : nat) (s : list N) (out : list N) (ok : bool)
       match wtf8_decode1 s with
       | (None, _) => (rev out, false)                 (* assert(code_point >= 0) *)
       | (Some cp, s') =>
-          let ok := ok && ((cp <=? 65535) || (cp <? 1114111)) in (* assert(code_point < 0x10FFFF) *)
+          let ok := ok && ((cp <=? 65535) || (cp <=? 1114111)) in (* assert(code_point <= 0x10FFFF) *)
           let out :=
             if 65535 <? cp then
               ((N.land (cp - 65536) 1023) + 56320) :: (N.shiftr (cp - 65536) 10 + 55296) :: out
@@ -88,7 +88,7 @@ Fixpoint wtf8_to_utf16_loop (fuel : nat) (s : list N) (out : list N) (ok : bool)
 Definition wtf8_to_utf16 (s : list N) : list N * bool :=
   wtf8_to_utf16_loop (S (length s)) s [] true.
 
-(* uv__get_surrogate_value, lines 412-424 *)
+(* uv__get_surrogate_value, lines 420-432 *)
 Definition get_surrogate_value (w : list N) (len : Z) : N :=
   let u := hd 0 w in
   if (55296 <=? u) && (u <=? 56319) && negb (len =? 1)%Z then
@@ -100,7 +100,7 @@ Definition get_surrogate_value (w : list N) (len : Z) : N :=
 
 Definition dec_len (len : Z) : Z := if (0 <? len)%Z then (len - 1)%Z else len.
 
-(* uv_utf16_length_as_wtf8, lines 427-457 *)
+(* uv_utf16_length_as_wtf8, lines 435-465 *)
 Fixpoint utf16_length_loop (fuel : nat) (w : list N) (len : Z) (acc : N) : N :=
   match fuel with
   | O => acc
@@ -118,7 +118,7 @@ Fixpoint utf16_length_loop (fuel : nat) (w : list N) (len : Z) (acc : N) : N :=
 Definition utf16_length_as_wtf8 (w : list N) (len : Z) : N :=
   utf16_length_loop (S (length w)) w len 0.
 
-(* uv_utf16_to_wtf8, lines 460-560. *)
+(* uv_utf16_to_wtf8, lines 468-569. *)
 Inductive tgt :=
 | TNull                (* target_ptr == NULL: only the length is computed *)
 | TAlloc (ok : bool)   (* *target_ptr == NULL: uv__malloc, [ok] = it succeeds *)
@@ -132,7 +132,7 @@ Record wst := mkWst {
   ws_out : list N       (* bytes stored so far, latest first *)
 }.
 
-(* lines 496-539.  [tend] = target_end - *target_ptr. *)
+(* lines 505-548.  [tend] = target_end - *target_ptr. *)
 Fixpoint to_wtf8_loop (fuel : nat) (tend : N) (st : wst) : wst :=
   match fuel with
   | O => st
@@ -188,7 +188,7 @@ Fixpoint to_wtf8_loop (fuel : nat) (tend : N) (st : wst) : wst :=
 (* Result: (return code, bytes stored through *target_ptr in order -- the
    terminating NUL included --, *target_len_ptr on return). *)
 Definition utf16_to_wtf8 (w : list N) (len : Z) (t : tgt) : Z * list N * N :=
-  (* lines 473-479 *)
+  (* lines 481-487 *)
   let target_len :=
     match t with
     | TBuf cap => cap
@@ -199,11 +199,12 @@ Definition utf16_to_wtf8 (w : list N) (len : Z) (t : tgt) : Z * list N * N :=
   | TAlloc false => (UV_ENOMEM, [], target_len)
   | _ =>
       let tend := target_len in
-      let st := to_wtf8_loop (S (length w)) tend (mkWst w len 0 target_len []) in
+      (* target_end = target + target_len; target_len = 0; (commit 0064931) *)
+      let st := to_wtf8_loop (S (length w)) tend (mkWst w len 0 0 []) in
       let '(mkWst w' len' target tlen out) := st in
-      (* lines 541-544 *)
+      (* lines 550-553 *)
       let tlp := if negb (target =? tend) then target else target_len in
-      (* lines 547-548 *)
+      (* lines 556-557 *)
       let len' := if (len' <? 0)%Z && (target =? tend) && (hd 0 w' =? 0) then 0%Z else len' in
       let out := 0 :: out in                               (* *target++ = '\0' *)
       if negb (len' =? 0)%Z then
